@@ -177,6 +177,19 @@ func c10Run(t *testing.T, run *Run, sc c10Scenario, rng *rand.Rand) {
 					fail("request-failed", "cookie header %q at %d%%: %s", trunc(hdr, 60), p, s)
 					return
 				}
+				if !hostile && (p%25 == 7 || p == 50) {
+					// the same value in a second Cookie header line, or among other cookies, is the same value
+					nreq++
+					rr := w.Do(Req{ID: fmt.Sprintf("q%d", nreq), Host: "c10.example", Path: "/", Hdr: [][2]string{{"Cookie", "theme=dark; session=abc"}, {"Cookie", "kamal-rollout=" + v}}})
+					s2 := "!"
+					if rr.Status == 200 && rr.Target != "" {
+						s2 = rr.Target[:1]
+					}
+					if s3 := side("a=1; kamal-rollout=" + v + "; z=2"); s2 != s || s3 != s {
+						fail("decision-depends-on-header-layout", "value %q at %d%%: alone -> %q, in a second Cookie header line -> %q, among other cookies -> %q", v, p, s, s2, s3)
+						return
+					}
+				}
 				if p%10 == 3 || p == 50 { // stickiness
 					for k := 0; k < 3; k++ {
 						if s2 := side(hdr); s2 != s {
